@@ -159,6 +159,11 @@ func VerifC10Wrapper() {
 	dec := &pd{info: info}
 	err = c.Decode(&pd{info: info, frames: out.frames}, dec, params)
 	vrt.Assert(err == nil, "C10 Decode returns no error")
+	// all library work is done: the write log is complete here
+	vrt.Assert(vrt.Events("store-caller-buffer") == 0, "C10 no store into a caller buffer")
+	vrt.Assert(vrt.Events("store-global") == 0, "C18 no store into a package-level variable")
+	vrt.Assert(vrt.Events("store-receiver") == 0, "C18 no store into the shared codec object")
+	vrt.Assert(vrt.Events("store-shared-param") == 0, "C18 no store into the shared, already valid parameters object")
 	if err != nil {
 		return
 	}
@@ -170,9 +175,5 @@ func VerifC10Wrapper() {
 		}
 		vrt.Assert(bytes.Equal(frames[i], copies[i]), "C10 caller's input buffer is unchanged")
 	}
-	vrt.Assert(vrt.Events("store-caller-buffer") == 0, "C10 no store into a caller buffer")
-	vrt.Assert(vrt.Events("store-global") == 0, "C18 no store into a package-level variable")
-	vrt.Assert(vrt.Events("store-receiver") == 0, "C18 no store into the shared codec object")
-	vrt.Assert(vrt.Events("store-shared-param") == 0, "C18 no store into the shared, already valid parameters object")
 	vrt.Out("n", len(dec.frames))
 }
